@@ -43,7 +43,7 @@ InitM == [rows |-> << >>, frames |-> << >>, call |-> None, ret |-> None, rolled 
           pieces |-> << >>, evseen |-> {}, window |-> None,
           cbDue |-> FALSE, cbSeen |-> << >>, cbIn |-> -1, cbDtm |-> -1, cbDtPending |-> FALSE,
           nfevBase |-> 0, inReset |-> FALSE, y0 |-> 0, dtm0 |-> -1, lastExc |-> "none",
-          opTerminated |-> FALSE, dtmPrev |-> -1, opEv |-> << >>, opDir |-> 0, fam |-> "unknown", opNoop |-> FALSE]
+          opTerminated |-> FALSE, dtmPrev |-> -1, opEv |-> << >>, opDir |-> 0, fam |-> "unknown", opNoop |-> FALSE, opPiece0 |-> 0]
 
 (***************************************************************************)
 (* Clauses evaluated on every event that carries a snapshot                 *)
@@ -68,6 +68,7 @@ UpdIntegrateCall(m, e, tr) ==
                                     atTarget |-> e.atTarget, steps |-> 0, calls |-> 0, dtmCall |-> -1, terminated |-> FALSE, term |-> e.term,
                                     lastHm |-> -1, lastFull |-> FALSE, cbAssigned |-> FALSE]),
               !.opDir = IF e.depth = 1 THEN e.dir ELSE @,
+              !.opPiece0 = IF e.depth = 1 THEN Len(m.pieces) ELSE @,   \* dense pieces stored when the call was made
               !.opNoop = IF e.depth = 1 THEN e.atTarget ELSE @,     \* a call made at its target changes nothing (C13): not even the status
               !.cbDue = IF e.depth = 1 THEN FALSE ELSE @,
               !.cbSeen = IF e.depth = 1 THEN << >> ELSE @,
@@ -282,8 +283,10 @@ ChkApiRet(m, e, tr) ==
     \cup (IF e.nsol = Len(m.pieces) /\ e.solT = m.pieces THEN {} ELSE {"C06.PieceListTracksLog"})
     \cup (IF tr.dense /\ m.fam # "rich" /\ e.op \in {"integrate"} /\ e.solT # SubSeq(e.grid, 2, Len(e.grid))
           THEN {"C06.PiecesAreExactlyTheRecordedSteps", "C09.PiecesAreExactlyTheRecordedSteps", "C12.PiecesAreExactlyTheRecordedSteps"} ELSE {})
+    \* the pieces a call adds are ordered along that call's direction, starting beyond the piece that was last when it was made
+    \* (calls may run in different directions: the piece list as a whole is ordered only while they do not)
     \cup (IF tr.dense /\ e.op = "integrate" /\ Len(e.solT) >= 2
-             /\ ~(\A k \in 1..(Len(e.solT) - 1) : (e.solT[k] < e.solT[k + 1]) = (e.solT[1] < e.solT[2]) /\ e.solT[k] # e.solT[k + 1])
+             /\ ~(\A k \in 1..(Len(e.solT) - 1) : k >= m.opPiece0 /\ k >= 1 => Beyond(m.opDir, e.solT[k], e.solT[k + 1]))
           THEN {"C06.PiecesOrderedAlongTheRun", "C09.PiecesOrderedAlongTheRun"} ELSE {})
     \cup (IF e.solPub = tr.dense THEN {} ELSE {"C06.SolutionObjectIffDense"})
     \* the per-function view `events_dict` is the event list grouped by event function, in list order (sensor: exact comparison)
